@@ -228,7 +228,7 @@ def _budget(tier):
     v = os.environ.get('VERIF_BUDGET_S')
     if v:
         return float(v)
-    return 600.0 if tier == 'quick' else 6 * 3600.0
+    return 600.0 if tier == 'quick' else 1800.0
 
 
 def make_pool(mod, tier, seed, nproc):
